@@ -50,7 +50,12 @@ PIPES = [["compute_tip_position"],
          []]
 OPTS = [{}, {"correct_tip_offset": {"method": "fit_constant_line"}},
         {"correct_tip_offset": {"method": "deviation_from_baseline"}},
-        {"correct_force_slope": {"region": "all", "strategy": "drift"}}]
+        {"correct_force_slope": {"region": "all", "strategy": "drift"}},
+        {"correct_force_slope": {"strategy": "drift", "region": "all"}},
+        {"correct_tip_offset": {"method": "fit_constant_line"},
+         "correct_force_slope": {"region": "all", "strategy": "drift"}},
+        {"correct_force_slope": {"strategy": "drift", "region": "all"},
+         "correct_tip_offset": {"method": "fit_constant_line"}}]
 BAD = [{"range_type": "bogus"}, {"model_key": "nomodel"},
        {"range_x": [0, float("nan")]}, {"segment": 0.5},
        {"preprocessing": ["bogus"]},
@@ -95,7 +100,10 @@ def gen_kwargs(r, allow_prep):
         elif k == "method_kws":
             # (max_nfev large enough never to abort: lmfit's result after an
             #  aborted fit is not reproducible even on identical inputs)
-            kw[k] = [{}, {"max_nfev": 20000}][int(r.integers(2))]
+            # (two-key dictionaries in both key orders: equal values)
+            kw[k] = [{}, {"max_nfev": 20000},
+                     {"max_nfev": 20000, "ftol": 1e-10},
+                     {"ftol": 1e-10, "max_nfev": 20000}][int(r.integers(4))]
         elif k == "params_initial":
             kw[k] = ("PI", float(r.uniform(.5, 2)),
                      float(r.uniform(-1e-7, 1e-7)), bool(r.integers(2)))
@@ -110,8 +118,12 @@ def gen_kwargs(r, allow_prep):
 
 def gen_op(r):
     t = ["prep", "fit", "fit", "fit", "fit0", "fit0", "edit", "rate", "emod",
-         "bad", "pedit", "nudge", "pattr", "readonly", "prepd"][
-        int(r.integers(15))]
+         "bad", "pedit", "nudge", "pattr", "readonly", "prepd", "reorder"][
+        int(r.integers(16))]
+    if t == "reorder":
+        # re-assign an equal dictionary with another key order
+        return ("reorder", ["method_kws", "preprocessing_options"][
+            int(r.integers(2))], bool(r.integers(2)))
     if t == "readonly":
         return ("readonly", int(r.integers(5)))
     if t == "prepd":
@@ -194,6 +206,28 @@ def apply_op(idnt, op):
              idnt.estimate_contact_point_index,
              idnt.get_initial_fit_parameters,
              idnt.estimate_optimal_mindelta][op[1]]()
+        elif op[0] == "reorder":
+            fp = idnt.fit_properties
+            cur = fp.get(op[1])
+
+            def rev(d):
+                return {k: (rev(v) if isinstance(v, dict) else v)
+                        for k, v in reversed(list(d.items()))}
+
+            def multi(d):
+                return isinstance(d, dict) and (len(d) > 1 or any(
+                    multi(v) for v in d.values()))
+            if not multi(cur):
+                cur = {"method_kws": {"max_nfev": 20000, "ftol": 1e-10},
+                       "preprocessing_options": copy.deepcopy(OPTS[-2])}[
+                    op[1]]
+                fp[op[1]] = copy.deepcopy(cur)
+                idnt.fit_model()
+            if op[2]:
+                idnt.fit_model(**{op[1]: rev(cur)})
+            else:
+                fp[op[1]] = rev(cur)
+                idnt.fit_model()
         elif op[0] == "nudge":
             fp = idnt.fit_properties
             what, d, via_fit = op[1], op[2], op[3]
@@ -447,6 +481,16 @@ def run_history(rec, tap, rng, cid):
                copy.deepcopy(PIPES[int(rng.integers(len(PIPES)))])}][
             int(rng.integers(2))]
         queue = [("edit", ed), ("fit", {}), ("fit0",), ("fit0",)]
+        if rng.random() < .4:
+            # ... or the edited settings are then requested explicitly
+            # (the request equals the stored, not the applied, settings)
+            pp = copy.deepcopy(PIPES[int(rng.integers(1, len(PIPES) - 1))])
+            oa, ob = [copy.deepcopy(OPTS[i]) for i in
+                      rng.choice(len(OPTS), 2, replace=False)]
+            queue = [("prep", pp, oa), ("fit", {}),
+                     ("edit", {"preprocessing_options": ob}),
+                     ("prep", copy.deepcopy(pp), copy.deepcopy(ob)),
+                     ("fit", {}), ("fit0",)]
         rec.event("scripted prefix: direct preprocessing edit, fit, refit")
     for step in range(nops):
         op = queue.pop(0) if queue else gen_op(rng)
